@@ -186,6 +186,20 @@ def async_cassette():
     return _AsyncComposite()
 
 
+# actions of Recorder.tla that the first checking config of a property must take at least once (vacuity guard)
+MUST_COVER = {
+    'C01': ['CallInput', 'CallOutput', 'Finalise', 'PlayStart', 'POpEnd', 'PlayEnd'],
+    'C02': ['CallInput', 'Finalise', 'PlayStart', 'PlayUnknown', 'PlayEnd'],
+    'C03': ['CallOutput', 'Finalise', 'PlayStart', 'POpEnd', 'PlayEnd'],
+    'C04': ['CallInput', 'CallOutput', 'Control', 'Finalise'],
+    'C05': ['CallInput', 'CallOutput', 'Control', 'Finalise', 'PlayStart'],
+    'C09': ['CallInput', 'Control', 'Finalise', 'PlayStart', 'PlayUnknown', 'PlayRaise'],
+    'C11': ['CallInput', 'Control', 'Finalise', 'PlayStart'],
+    'C17': ['Control', 'Finalise'],
+    'C18': ['CallInput', 'Finalise'],
+}
+
+
 CASSETTES = {'memory': (mem_cassette, None), 'file': (file_cassette, file_refetch), 's3': (s3_cassette, s3_refetch),
              'async': (async_cassette, None)}
 
@@ -301,9 +315,17 @@ class RecorderCheck(object):
         properties = ALL_PROPERTIES if properties is None else properties
         mod = 'MC_%s_%s' % (self.rep.prop, name)
         mc.write_mc(self.scratch, 'Recorder', mod, to_tla_consts(c), invariants=invariants, properties=properties)
-        r = tlc.run_tlc(self.scratch, mod, mod + '.cfg', timeout=timeout, coverage=False)
+        r = tlc.run_tlc(self.scratch, mod, mod + '.cfg', timeout=timeout, coverage=True)
         self.rep.add_tlc(name, r, obligations=invariants + properties)
         _log('check %s: %d distinct, %.1fs' % (name, r.distinct, r.wall_s))
+        # vacuity guard: TLC's per-action counts of the checking config; an action the property is about that is never
+        # taken means the invariants were never exercised there (machinery failure, not a verdict)
+        if r.coverage and expect is None:
+            cov = dict((a, t) for a, (_d, t) in r.coverage.items())
+            self.rep.extra.setdefault('tlc_action_coverage', {})[name] = cov
+            missing = [a for a in MUST_COVER.get(self.rep.prop, ()) if name == 'chk' and a in cov and cov[a] == 0]
+            if missing and not r.violation:
+                raise tlc.TLCError('vacuity: config %s of %s never takes the action(s) %s' % (name, self.rep.prop, missing))
         if expect is not None:
             # a design-level counterexample we expect on the *pinned* design (documentation of a finding)
             self.rep.extra.setdefault('design_counterexamples', []).append(
